@@ -18,6 +18,9 @@ import (
 // fonts, or an error if no one exists.
 // These are the directories used by `FontMap.UseSystemFonts` to locate fonts.
 func DefaultFontDirectories(logger Logger) ([]string, error) {
+	if d := verifFontDirs(); d != nil { // always nil unless built with the `verif` tag
+		return d, nil
+	}
 	var dirs []string
 	switch runtime.GOOS {
 	case "windows":
